@@ -1,5 +1,6 @@
 (* Executable interface of the L2 model (UperWriter / UperReader). *)
 From A1 Require Import Uper.Reader.
+From A1 Require Import Uper.ReaderD.
 Local Open Scope Z_scope.
 
 Definition zs (l : list N) : list Z := map Z.of_N l.
@@ -219,6 +220,21 @@ Definition run_uper (m : mode) (op : Z) (a : list Z) : list Z :=
                   end
               end
           end
+      end
+  (* C19: op 1202 on the model of the feature build; a failure also reports the log that `Reader::read`
+     moves into the error (length, then one code per entry, oldest first).  The enumerated-index warning
+     is left out on both sides: the harness' EnumC has the constant VARIANT_COUNT = 0 (its variant count is
+     dynamic), so the real reader emits that warning for every index there. *)
+  | 1204 =>
+      let '(t, l) := parse_ty (S (length a)) a in
+      let '(bl, bytes) := nx l in
+      let r := rd_of (r_of_src (src_of_bytes (map Z.to_N bytes) (Z.to_N bl))) in
+      match read_ty_dl m t r with
+      | DOk v r' => 0 :: enc_val v ++ enc_rem m (erase r')
+      | DErr e lg =>
+          let codes := filter (fun c => negb (c =? L_WARNING_ENUM)%N) (rev lg) in
+          1 :: Z.of_N e :: 0 :: Z.of_nat (length codes) :: zs codes
+      | DPanic p => [2; Z.of_N p; 0]
       end
   | _ => [-1]
   end.
